@@ -6,9 +6,9 @@ Written against the emitted *text* only.  `lex k` is a one-pass state machine ov
 characters (delimited identifier with doubled close delimiter, bare word, number, string literal
 with doubled `'` (and backslash escapes on MySQL/MariaDB), punctuation).  `shape k c` is the token
 shape the target database's grammar gives to the statement requested by `c`: fixed/opaque text,
-*references* (a dotted chain of identifier tokens whose last components are the requested
-names and whose leading components, joined by ".", spell the schema - present iff a schema
-was given), and string literals (exact content, or content that is itself SQL of a given shape).
+*references* (a maximal dotted chain of identifier tokens that is exactly the schema's identifiers
+- see `schemaPartsOf`: a plain dotted `str` is multi-part, any `quoted_name` is one identifier -
+followed by the requested names), and string literals (exact content, or content that is itself SQL of a given shape).
 `stmtOk` = "the emitted text tokenises into exactly that shape".
 -/
 namespace Spec.Ident
@@ -124,8 +124,20 @@ def chain (reserved : Str → Bool) : List Tok → Option (List Str × List Tok)
         | none => none
       | _ => some ([d], rest)
 
-/-- the chain `ds` ends with exactly `names`, and what precedes spells the schema -/
-def refOk (schema : Option Str) (names : List Str) (ds : List Str) : Bool :=
+/-- **What the kind of a schema argument means.**  A plain `str` containing dots is a multi-part qualifier
+    by design (`database.owner`): one identifier per dot-separated part.  Any `quoted_name` (whatever its
+    `quote` flag; SQLAlchemy stores every `Table.schema` as `quoted_name(value, quote=None)`) is ONE identifier,
+    dots included.  (`quote=False` is the caller's assertion that the text needs no quoting.) -/
+def schemaPartsOf : Option Name → List Str
+  | none => []
+  | some n => if n.s.isEmpty then [] else if n.qn.isSome then [n.s] else splitDot n.s
+
+/-- the chain `ds` is exactly the schema's identifiers followed by `names` -/
+def refOk (parts : List Str) (names : List Str) (ds : List Str) : Bool := ds == parts ++ names
+
+/-- weaker reading used only for statements compiled by SQLAlchemy's own constructs (`mentionsRef`): the chain
+    ends with `names` and what precedes, joined by ".", spells the schema (present iff a schema was given) -/
+def refOkJoin (schema : Option Str) (names : List Str) (ds : List Str) : Bool :=
   names.length ≤ ds.length &&
   ds.drop (ds.length - names.length) == names &&
   (match schema with
@@ -134,7 +146,7 @@ def refOk (schema : Option Str) (names : List Str) (ds : List Str) : Bool :=
 
 inductive Item0
   | text (t : Str)                                -- exactly the tokens of this text
-  | ref (schema : Option Str) (names : List Str)  -- [schema .] name [. name …]
+  | ref (schema : List Str) (names : List Str)    -- schema identifiers . name [. name …]
   deriving Repr
 
 inductive Item
@@ -189,10 +201,12 @@ def schemaOf (g : Tgt) : Option Str :=
   | some n => if n.s.isEmpty then none else some n.s
   | none => none
 
+def schemaParts (g : Tgt) : List Str := schemaPartsOf g.schema
+
 def T (s : String) : Item := .base (.text s.toList)
 def TX (s : Str) : Item := .base (.text s)
-def tableRef (g : Tgt) : Item := .base (.ref (schemaOf g) [g.t.s])
-def nameRef (n : Name) : Item := .base (.ref none [n.s])
+def tableRef (g : Tgt) : Item := .base (.ref (schemaParts g) [g.t.s])
+def nameRef (n : Name) : Item := .base (.ref [] [n.s])
 def optText (pre : String) : Option Str → List Item
   | some d => [T pre, TX d]
   | none => []
@@ -206,7 +220,7 @@ def objectIdArg (g : Tgt) : Str :=
 def mssqlDropTailShape (pfx : String) (g : Tgt) (col : Str) : List Item :=
   [T ("where " ++ pfx ++ "parent_object_id = object_id("), .strIs (objectIdArg g),
    T (") and col_name(" ++ pfx ++ "parent_object_id, " ++ pfx ++ "parent_column_id) ="), .strIs col,
-   T "exec(", .strSql [.text "alter table".toList, .ref (schemaOf g) [g.t.s], .text "drop constraint".toList],
+   T "exec(", .strSql [.text "alter table".toList, .ref (schemaParts g) [g.t.s], .text "drop constraint".toList],
    T "+ @const_name)"]
 
 /-- The token shape of the statement that `c` requests on dialect `k`, following the target
@@ -214,7 +228,7 @@ def mssqlDropTailShape (pfx : String) (g : Tgt) (col : Str) : List Item :=
 def shape (k : Kind) : Construct → Option (List Item)
   | .renameTable g new =>
     match k with
-    | .mssql => some [T "EXEC sp_rename", .strSql [.ref (schemaOf g) [g.t.s]], T ",", nameRef new]
+    | .mssql => some [T "EXEC sp_rename", .strSql [.ref (schemaParts g) [g.t.s]], T ",", nameRef new]
     | .mysql | .mariadb =>   -- MySQL: an unqualified new name would move the table to the default database
       some [T "ALTER TABLE", tableRef g, T "RENAME TO", tableRef { g with t := new }]
     | _ => some [T "ALTER TABLE", tableRef g, T "RENAME TO", nameRef new]
@@ -245,7 +259,7 @@ def shape (k : Kind) : Construct → Option (List Item)
   | .columnName g col new =>
     match k with
     | .mysql | .mariadb => none
-    | .mssql => some [T "EXEC sp_rename", .strSql [.ref (schemaOf g) [g.t.s, col.s]], T ",", nameRef new,
+    | .mssql => some [T "EXEC sp_rename", .strSql [.ref (schemaParts g) [g.t.s, col.s]], T ",", nameRef new,
                       T ",", .strIs "COLUMN".toList]
     | .postgresql => some [T "ALTER TABLE", tableRef g, T "RENAME", nameRef col, T "TO", nameRef new]
     | _ => some [T "ALTER TABLE", tableRef g, T "RENAME COLUMN", nameRef col, T "TO", nameRef new]
@@ -263,10 +277,10 @@ def shape (k : Kind) : Construct → Option (List Item)
   | .columnComment g col comment =>
     match k with
     | .postgresql =>
-      some [T "COMMENT ON COLUMN", .base (.ref (schemaOf g) [g.t.s, col.s]), T "IS",
+      some [T "COMMENT ON COLUMN", .base (.ref (schemaParts g) [g.t.s, col.s]), T "IS",
             match comment with | some c => TX c | none => T "NULL"]
     | .oracle =>
-      some [T "COMMENT ON COLUMN", .base (.ref (schemaOf g) [g.t.s, col.s]), T "IS",
+      some [T "COMMENT ON COLUMN", .base (.ref (schemaParts g) [g.t.s, col.s]), T "IS",
             match comment with | some c => TX c | none => T "''"]
     | _ => none
   | .identity g col tail =>
@@ -331,7 +345,7 @@ def mentionsFrom (reserved : Str → Bool) (schema : Option Str) (names : List S
   | prevDot, t :: rest =>
     (!prevDot &&
       (match chain reserved (t :: rest) with
-       | some (ds, _) => refOk schema names ds
+       | some (ds, _) => refOkJoin schema names ds
        | none => false)) ||
     mentionsFrom reserved schema names (t == .sym '.') rest
 
